@@ -15,7 +15,7 @@ enum { U_ALLOC = 1, U_RELEASE, U_SWAP, U_RESET, U_GET,
        S_ALLOC = 10, S_SHARE, S_SWAP, S_RESET, S_GET, S_UNIQUE,
        W_FROM = 20, W_LOCK, W_SWAP, W_RESET,
        G_SET = 30, G_COPY, G_SWAP, G_GET,
-       X_STRAY = 40, X_MANY = 41 };
+       X_STRAY = 40, X_MANY = 41, X_SELFREF = 42 };
 
 static const char *q_opname(int k)
 {
@@ -26,7 +26,7 @@ static const char *q_opname(int k)
     case S_RESET: return "shared_reset"; case S_GET: return "shared_get"; case S_UNIQUE: return "shared_unique";
     case W_FROM: return "weak_from"; case W_LOCK: return "weak_lock"; case W_SWAP: return "weak_swap"; case W_RESET: return "weak_reset";
     case G_SET: return "guarded_set"; case G_COPY: return "guarded_copy"; case G_SWAP: return "guarded_swap"; case G_GET: return "guarded_get";
-    case X_STRAY: return "stray"; case X_MANY: return "many_owners";
+    case X_STRAY: return "stray"; case X_MANY: return "many_owners"; case X_SELFREF: return "self_reference";
     }
     return "?";
 }
@@ -90,6 +90,28 @@ static void cb_common(int idx, void *ptr, void *priv)
 #define DEFCB(n) static void cb##n(void *p, void *q) { cb_common(n, p, q); }
 DEFCB(0) DEFCB(1) DEFCB(2) DEFCB(3) DEFCB(4) DEFCB(5) DEFCB(6) DEFCB(7)
 static cstl_xtor_func_t *cbs[NCB] = { cb0, cb1, cb2, cb3, cb4, cb5, cb6, cb7 };
+
+/* an object that keeps a weak back-reference to itself (or to a sibling): its clear callback re-enters the library */
+static cstl_weak_ptr_t sr_back, sr_other; static cstl_shared_ptr_t sr_tmp;
+static int sr_calls, sr_flags, sr_lock_gave_owner, sr_payload_ok; static unsigned char *sr_payload;
+static void cb_selfref(void *ptr, void *priv)
+{
+    CB_ENTER();
+    (void)priv;
+    sr_calls++;
+    sr_payload_ok = ptr == sr_payload && simheap_is_live(ptr) && sr_payload[0] == 0x3a;
+    g_inlib = 1;
+    if (sr_flags & 1) {
+        /* the last owner is going away: a lock through the back-reference must not yield an owner */
+        cstl_weak_ptr_lock(&sr_back, &sr_tmp);
+        sr_lock_gave_owner = cstl_shared_ptr_get(&sr_tmp) != NULL;
+        cstl_shared_ptr_reset(&sr_tmp);
+    }
+    cstl_weak_ptr_reset(&sr_back);              /* drop the back-reference while the owner's reset is still running */
+    if (sr_flags & 2) cstl_weak_ptr_reset(&sr_other);
+    g_inlib = 0;
+    CB_LEAVE();
+}
 
 /* ---------------------------------------------------------------- model */
 
@@ -503,6 +525,44 @@ static void q_once(const plan_t *p)
             break;      /* check_effects below verifies that nothing of it is left allocated */
         }
 
+        case X_SELFREF: {
+            static cstl_shared_ptr_t s1, s2; static const void *pp; unsigned before;
+            if (live_allocs() >= maxlive + 1) { EVT("skip", 0, 0, 0); break; }
+            g_cur_ctx = "callback-drops-back-reference";
+            sr_flags = (int)(o->a[2] & 15); sr_calls = 0; sr_lock_gave_owner = 0;
+            cstl_shared_ptr_init(&s1); cstl_shared_ptr_init(&s2); cstl_shared_ptr_init(&sr_tmp);
+            cstl_weak_ptr_init(&sr_back); cstl_weak_ptr_init(&sr_other);
+            before = simheap_live_count(TAG_LIB);
+            TRY(cstl_shared_ptr_alloc(&s1, 40, cb_selfref));
+            TRY(pp = cstl_shared_ptr_get(&s1));
+            if (pp == NULL) { EVT("skip", 0, 0, 0); break; }
+            sr_payload = (unsigned char *)pp; sr_payload[0] = 0x3a;
+            TRY(cstl_weak_ptr_from(&sr_back, &s1));
+            TRY(cstl_weak_ptr_from(&sr_other, &s1));        /* flags&2: dropped by the callback too; else: outlives the payload */
+            if (sr_flags & 4) { TRY(cstl_shared_ptr_share(&s1, &s2)); TRY(cstl_shared_ptr_reset(&s2)); }
+            if (sr_calls) VIOL("cleared_early", "the clear callback ran while an owner exists");
+            if (sr_flags & 8) { TRY(cstl_shared_ptr_share(&s1, &s2)); TRY(cstl_shared_ptr_reset(&s1)); TRY(cstl_shared_ptr_reset(&s2)); }   /* the last owner is a sharer */
+            else TRY(cstl_shared_ptr_reset(&s1));
+            if (g_aborted) VIOL(g_aborted == 2 ? "assert" : "abort", "reset of the last owner aborted while its clear callback dropped the object's weak back-reference");
+            if (sr_calls != 1) VIOL("clear_count", "the clear callback ran %d times for one allocation", sr_calls);
+            if (!sr_payload_ok) VIOL("callback_payload", "the clear callback was not handed the intact, still allocated payload");
+            if (sr_lock_gave_owner) VIOL("lock_after_last_owner", "a lock through the back-reference, made from the clear callback of the last owner, yielded an owner");
+            if (simheap_is_live(sr_payload)) VIOL("payload_not_released", "the managed memory is still allocated after its last owner let go");
+            if (!(sr_flags & 2)) {
+                if (simheap_live_count(TAG_LIB) != before + 1) VIOL("bookkeeping_count", "with one weak reference left %u library blocks remain, expected the bookkeeping block alone", simheap_live_count(TAG_LIB) - before);
+                TRY(cstl_weak_ptr_lock(&sr_other, &sr_tmp));
+                TRY(pp = cstl_shared_ptr_get(&sr_tmp));
+                if (pp != NULL) VIOL("lock_after_last_owner", "a weak lock yielded an owner after the last owner let go");
+                TRY(cstl_weak_ptr_reset(&sr_other));
+            }
+            if (simheap_live_count(TAG_LIB) != before) VIOL("bookkeeping_not_released", "%u library blocks of the self-referencing object are still allocated after every reference let go", simheap_live_count(TAG_LIB) - before);
+            simheap_audit(PROP(), "self-reference");
+            ncbl = 0; nexp_clear = 0;
+            PROBE("clear_callback_drops_back_reference");
+            EVT("selfref", sr_flags, 0, 0);
+            break;
+        }
+
         /* ------------------------------------------------------ C20 */
         case X_STRAY: {
             /* a[0]: kind 0 guarded,1 unique,2 shared,3 weak; a[1]: object; a[2]: function; a[3]: relocate; a[5]: partner */
@@ -642,6 +702,7 @@ static void q_gen(prng_t *r, int mode, plan_t *p)
         if (faults && (kind == U_ALLOC || kind == S_ALLOC) && prng_chance(r, 1, 3)) o->a[4] = 1 + prng_below(r, 2);
     }
     if (mode == 5 && prng_chance(r, 1, 150)) { op_t *o = plan_add(p, X_MANY); o->a[2] = prng_below(r, 8); }
+    if (mode == 5 && prng_chance(r, 1, 6)) { op_t *o = plan_add(p, X_SELFREF); o->a[2] = prng_below(r, 16); }
     if (mode == 20) {
         op_t *o = plan_add(p, X_STRAY);
         o->a[0] = prng_below(r, 4); o->a[1] = prng_below(r, 12); o->a[2] = prng_below(r, 63); o->a[3] = prng_below(r, 2); o->a[5] = prng_below(r, 12);
